@@ -21,8 +21,12 @@ case "$variant" in
     # one main per property (harness/cmd/cXX) so that a package under development cannot break the others
     go build $MODFLAG -o "$out" "./cmd/${variant#plain-}" ;;
   *)
+    kind="${variant%%-*}"; rest="${variant#*-}"
     if [ -x "$VERIF/bin/build-$variant.sh" ]; then
       "$VERIF/bin/build-$variant.sh" "$out"
+    elif [ -x "$VERIF/bin/build-$kind.sh" ]; then
+      # generic overlay builders: bin/build-<kind>.sh <out> <cXX>
+      "$VERIF/bin/build-$kind.sh" "$out" "$rest"
     else
       echo "unknown variant $variant" >&2; exit 2
     fi ;;
